@@ -83,6 +83,11 @@ PART_B = b"asis* continues www.example.com\n\n- [x] task\n\n```python\nprint(1)\
 PART_C = b"| h |\n|---|\n| c |\n\n> [!TIP]\n> tip \"smart\" -- text[^1]\n\n[^1]: note\n"
 SMALL = b"Hello *world* ~~x~~ www.example.com\n\n```rust\nlet a = 1;\n```\n"
 
+# a document whose only code block is an INDENTED one (the highlighter plugin is applied to every code block, not only
+# to fenced ones), and one without any code
+INDENT_ONLY = b"Some *text* first.\n\n    indented code only\n    let a = 1;\n\nAnd more text.\n"
+NO_CODE = b"Just a paragraph with ~~strike~~ and www.example.com\n\n- item\n"
+
 THEMES = ["base16-ocean.dark", "InspiredGitHub", "Solarized (dark)", "base16-eighties.dark"]
 VALUES = {
     "default_info_string": ["rust", "py thon", "x\"y"],
@@ -594,7 +599,8 @@ def random_case(T, rng, exts, bools, overlap):
             real.append(dup)
         if dup not in cfg:
             cfg.append(dup)
-    docs = {"stdin": (rng.choice([MASTER, SMALL, MASTER + PART_C]),), "one": (rng.choice([MASTER, SMALL + PART_C]),), "three": (PART_A, PART_B, PART_C)}[inp]
+    docs = {"stdin": (rng.choice([MASTER, SMALL, MASTER + PART_C, INDENT_ONLY, NO_CODE]),), "one": (rng.choice([MASTER, SMALL + PART_C, INDENT_ONLY]),),
+            "three": rng.choice([(PART_A, PART_B, PART_C), (NO_CODE, INDENT_ONLY), (INDENT_ONLY, PART_A, NO_CODE)])}[inp]
     return Case("overlap" if overlap else "random", real=real, cfg=cfg, cfg_mode=cfg_mode, inp=("stdin" if inp == "stdin" else "files"), docs=docs, sink=sink)
 
 
